@@ -21,6 +21,7 @@ def run_on(program: Program, prop: str):
     ctx = Ctx(program, prop, "quick")
     try:
         mod.check(ctx)
+        ctx.finish()
     except AnalysisError as e:
         return ctx, f"ANALYSIS-ERROR {e}"
     return ctx, None
